@@ -240,6 +240,24 @@ def _base_sym(lhs):
     return re.split(r"[.\[]", lhs.lstrip("*("))[0]
 
 
+
+def _owned_by(sf, roots):
+    """roots plus every library function all of whose direct callers are already in the set (a static helper extracted
+    from polyseed_inject is still 'polyseed_inject' for the purpose of who may write polyseed_deps)"""
+    callers = {}
+    for fn, kind, tgt in sf["calls"]:
+        if kind == "direct":
+            callers.setdefault(tgt, set()).add(fn)
+    owned = set(roots)
+    changed = True
+    while changed:
+        changed = False
+        for f in sf["libfuncs"]:
+            if f not in owned and callers.get(f) and callers[f] <= owned:
+                owned.add(f); changed = True
+    return owned
+
+
 @engine("statics")
 def statics_engine(prop, tier, work, name):
     sf = _static_facts(work)
@@ -264,12 +282,13 @@ def statics_engine(prop, tier, work, name):
     res.append({"name": "S.statics.set", "status": "pass" if ok else "fail", "evaluated": len(mutable) + sf["nfuncs"],
                 "detail": detail, "sample": detail[:160], "witness": {"new_static_writers": sorted(set(written_extra))[:10]}})
     bad = []
+    allowed = {k: (_owned_by(sf, v) if v else set()) for k, v in ALLOWED_WRITERS.items()}
     for fn, lhs in sf["writes"]:
         b = _base_sym(lhs)
-        if b in ALLOWED_WRITERS and fn not in ALLOWED_WRITERS[b]:
+        if b in allowed and fn not in allowed[b]:
             bad.append("%s writes %s" % (fn, lhs))
     for fn, sym, s in sf["addr"]:
-        if sym in ALLOWED_WRITERS and fn not in ALLOWED_WRITERS[sym]:
+        if sym in allowed and fn not in allowed[sym]:
             bad.append("%s takes the address of %s" % (fn, sym))
     res.append({"name": "S.statics.writers", "status": "fail" if bad else "pass", "evaluated": len(sf["writes"]),
                 "detail": "; ".join(sorted(set(bad))[:6]) if bad else
@@ -299,9 +318,10 @@ def calls_engine(prop, tier, work, name):
                 continue
             bad.append("%s calls through pointer %s" % (fn, tgt))
     # malloc / free / stdlib_time only as fall-backs installed by polyseed_inject
+    inj = _owned_by(sf, {"polyseed_inject"})
     for fn, ext in sf["extaddr"]:
         n += 1
-        if fn != "polyseed_inject" or ext not in ("malloc", "free", "stdlib_time"):
+        if fn not in inj or ext not in ("malloc", "free", "stdlib_time"):
             bad.append("%s takes the address of %s" % (fn, ext))
     return [{"name": "S.calls", "status": "fail" if bad else "pass", "evaluated": n,
              "detail": "; ".join(sorted(set(bad))[:6]) if bad else
